@@ -239,7 +239,9 @@ class NodeCount(BranchCache[dict[Node, int]]):
         Returns:
             bool: Whether the node is a least-applied-to node
         """        
-        return self.min(branch) >= self[branch][node]
+        # Read with .get(): subscripting the defaultdict would insert a zero count for
+        # `node`, pinning min() at 0 for nodes that can never be applied to.
+        return self.min(branch) >= self[branch].get(node, 0)
 
 class NodesWorlds(BranchCache[set[tuple[Node, int]]]):
     """
